@@ -37,6 +37,7 @@ def required(tier):
         "lr.rejections_agree": 1000,
         "with_continuation": 2000,
         "grammars.with_priorities": 100,
+        "glr.root_spans_checked": 5000,
     }
 
 
@@ -72,6 +73,8 @@ def one_grammar(ctx, gmon, g, alphabet, maxlen):
         with pgx.watchdog(30):
             pg = pgx.grammar(text)
             parsers = [("GLR", pgx.glr(pg, consume_input=False))]
+            # the documented pass-through callback must change nothing
+            parsers.append(("GLR-ctr", pgx.glr(pgx.grammar(text), consume_input=False, custom_token_recognition=lambda head, get_tokens: get_tokens())))
             if not overlap:
                 parsers.append(("GLR-ld", pgx.glr(pgx.grammar(text), consume_input=False, lexical_disambiguation=True)))
                 try:
@@ -169,6 +172,21 @@ def check(ctx, gmon, g, pkeys, parser, name, case, inp, ends, ref, chart):
         return
     forms = [pgx.tree_form(o.forest[i], pkeys) for i in range(o.len)]
     ctx.count("glr.forests_compared")
+    # each tree is the tree of *its* prefix: its root must not reach beyond the layout
+    # that follows its last leaf (nor start after its first leaf)
+    for i in range(min(o.len, 40)):
+        t = o.forest[i]
+        leaves = pgx.tree_leaves(t)
+        last_end = leaves[-1].end_position if leaves else None
+        limit = cfg.skip_ws(inp, last_end) if leaves else cfg.skip_ws(inp, 0)
+        s0, e0 = t.start_position, t.end_position
+        ctx.count("glr.root_spans_checked")
+        if not (type(e0) is int and e0 <= limit and (not leaves or (e0 >= last_end or e0 >= leaves[0].start_position))):
+            ctx.violation("tree-span-exceeds-its-prefix", dict(case, index=i), "forest[%d] has root span %s-%s but its leaves end at %s (prefix ends at %s)" % (i, s0, e0, last_end, limit))
+            return
+        if leaves and type(s0) is int and s0 > leaves[0].start_position:
+            ctx.violation("tree-span-exceeds-its-prefix", dict(case, index=i), "forest[%d] root starts at %s after its first leaf at %s" % (i, s0, leaves[0].start_position))
+            return
     if name == "GLR-ld":
         ctx.count("glr.ld_on.forests_compared")
     if len(ends) >= 2:
@@ -231,6 +249,8 @@ def replay(case, ctx):
         name = case["parser"]
         if name == "GLR":
             parser = pgx.glr(pg, consume_input=False)
+        elif name == "GLR-ctr":
+            parser = pgx.glr(pg, consume_input=False, custom_token_recognition=lambda head, get_tokens: get_tokens())
         elif name == "GLR-ld":
             parser = pgx.glr(pg, consume_input=False, lexical_disambiguation=True)
         else:
